@@ -54,7 +54,8 @@ CLAIMED = {
            "necessary; string_codec / bool_codec by computation and int_codec for EVERY integer in the range of the declared width (Params/Decimal.lean: the digits of Nat.toDigits fold back to the number, "
            "signs and the range test of strconv.ParseInt included). dispatch_*: the client's response switch as decision logic (declared 2xx -> typed result, declared non-2xx -> typed error, default non-2xx -> typed default error, default 2xx "
            "-> APIError wrapping the default, no default -> APIError with the code); dispatch_total. Tie: a generated client calls the generated server of the same spec in one process; struct given vs "
-           "struct seen, scripted typed responder vs client result/error, and both vs the Lean functions on the same inputs."),
+           "struct seen, scripted typed responder vs client result/error, and both vs the Lean functions on the same inputs; body variants (model, base64, date, integer array), values with white space at "
+           "either end, defaults of omitted parameters, and a census of the media types every generated client operation declares against the spec's effective consumes / produces."),
   "note": ("Trusted: Lean kernel + audited axioms; genlab pair lab (generated client + server + glue main); encoding/json projections. Modelled rather than verified: the templates (transcribed), "
            "swag.JoinByFormat/SplitByFormat/FormatInt/ConvertInt (dependencies, transcribed), net/http and the runtime's escaping (exercised only). Outside the fragment: security, tags, file/multipart "
            "parameters, number and strfmt formats, nested arrays, non-JSON media types, streaming bodies; bodies and response headers are exercised (one object shape, integer and string headers), not modelled."),
@@ -102,9 +103,10 @@ CLAIMED = {
            "method+path key) gatherOperations registers every operation under its own name (nothing dropped or merged); `gather_le`; `merge_is_silent` proves the property false of "
            "the code when names collide (no error is raised) - a known finding. Tie: the real gatherOperations is called through an accessor on specs built from pools of names that "
            "collide after mangling and compared with the compiled model (both tie orders of the unstable sort); each spec is then generated as a server and the generated "
-           "initHandlerCache and models directory are counted against the operations and definitions of the spec."),
+           "initHandlerCache and models directory are counted against the operations and definitions of the spec (definition shapes varied: object, binary, enum, array, map, date, integer; also for generate client); "
+           "every operation of a compiled server is then requested on its own method and path (incl. /, trailing slashes, templated paths with a trailing slash)."),
   "note": ("Trusted: Lean kernel + audited axioms; the verif accessor; genlab; regexp scan of generated code. Modelled rather than verified: file naming and type naming "
-           "(swag.ToGoName / ToFileName are dependencies; observed through the census), handler registration (read statically from generated code, requests are not sent)."),
+           "(swag.ToGoName / ToFileName are dependencies; observed through the census), handler registration is read statically for the colliding-name specs and exercised by requests in the reachability phase."),
  },
  "C09": {
   "technique": "Lean 4 proof (escaper theorems for all strings; decide over the regenerated site table) + helper correspondence + hostile-payload AST differential",
@@ -238,7 +240,8 @@ CLAIMED = {
            "blank first line. The model is tied by correspondence: the real function (verif accessor) and the Lean function on random ASCII bodies. Everything else the property quantifies over is explored, "
            "not proved: programs built from the documented grammar (meta, route + Responses, operation + YAML body, parameters, response, model with validations at items depth, every method and letter case) "
            "must scan into a document that passes go-openapi/validate and holds every annotated route with method, path, id, tag, parameters and response codes; the same programs with hostile lines inserted in "
-           "every comment group (and odd field types) must never crash the scanner. Two crashes found this way were repaired; the extension-block parser's crashes are known findings."),
+           "every comment group (and odd field types) must never crash the scanner; body parameters (inline envelope, named, slice, map, pointer) reach un-annotated types, the Schemes line is written with and without spaces. "
+           "Two crashes and two invalid-document defects found this way were repaired; the extension-block parser's crashes are known findings."),
   "note": ("Trusted: Lean kernel + audited axioms; codescan.Run in-process under recover(); go-openapi/validate; the expectation derived from the program generator. Modelled rather than verified: only removeIndent "
            "(regular expressions transcribed by hand for ASCII). Not modelled: the ~40 regular expressions, sectionedParser, yamlSpecScanner, document assembly, merging with an input spec."),
  },
